@@ -350,7 +350,70 @@ class ChannelSinr(Harness, _Sizes):
         for _ in range(4):
             bad = self._oracle(cfg, rng)
             assert not bad, bad
-        return 4
+        n = 4
+        if cfg.get('noise') == 'sym' and not cfg.get('rescale'):
+            n += self._representation_probe(cfg, rng)
+        return n
+
+    def _representation_probe(self, cfg, rng):
+        """noise variance / path loss / channel given as int, numpy integer,
+        float32, ... (same value): invisible to the exact-real model; and the
+        boundary 'no external interference antennas' of the ext-int class,
+        which must coincide with the plain class"""
+        from pysym import probes
+        from pysym.runner import ConcreteViolation
+        mu = repo_module(MU)
+        K, Nr, Nt, Ns = cfg['K'], cfg['Nr'], cfg['Nt'], cfg['Ns']
+        H = crandn(rng, sum(Nr), sum(Nt))
+        F = np.empty(K, dtype=object)
+        U = np.empty(K, dtype=object)
+        Fj = np.empty(K, dtype=object)
+        for k in range(K):
+            F[k] = crandn(rng, Nt[k], Ns[k])
+            U[k] = crandn(rng, Nr[k], Ns[k])
+            Fj[k] = crandn(rng, sum(Nt), Ns[k])
+        pl = np.array([[float(rng.randrange(1, 5)) for _ in range(K)]
+                       for _ in range(K)])
+
+        def flat(x):
+            return [np.asarray(v, dtype=complex) for v in x]
+
+        def run(Hm, plm, nv, cls_ext, use_pl=True):
+            ch = mu.MultiUserChannelMatrixExtInt() if cls_ext else \
+                mu.MultiUserChannelMatrix()
+            if cls_ext:
+                ch.init_from_channel_matrix(Hm, np.array(Nr), np.array(Nt),
+                                            K, 0)
+            else:
+                ch.init_from_channel_matrix(Hm, np.array(Nr), np.array(Nt), K)
+                if cfg.get('pathloss') and use_pl:
+                    ch.set_pathloss(plm)
+            ch.noise_var = nv
+            out = flat(ch.calc_SINR(F, U)) + flat(ch.calc_JP_SINR(Fj, U))
+            for k in range(K):
+                out.append(np.asarray(ch.calc_Q(k, F)))
+                out.append(np.asarray(ch.calc_JP_Q(k, Fj)))
+            return out
+        n = 0
+        for nv in (2.0, 1.0):
+            n += probes.require('C11/channel', run, [H, pl, nv, False],
+                                vary=(0, 1, 2), rtol=1e-7, atol=1e-9,
+                                kinds=('readonly', 'fortran', 'strided', 'int',
+                                       'narrow', 'pyscalar'),
+                                check_result_alias=False)
+        # ext-int class without any external interference antenna
+        try:
+            a = run(H, pl, 0.5, False, use_pl=False)
+            b = run(H, pl, 0.5, True, use_pl=False)
+            ok = all(x.shape == y.shape and np.allclose(x, y, rtol=1e-9)
+                     for x, y in zip(a, b))
+            why = 'differs-from-the-plain-class'
+        except Exception as e:      # noqa
+            ok, why = False, 'exception:' + type(e).__name__
+        if not ok:
+            raise ConcreteViolation(
+                'C11/extint/no-external-antennas:' + why, dict(cfg=cfg))
+        return n + 1
 
 
 class IaSinr(Harness, _Sizes):
